@@ -488,7 +488,7 @@ int main(int argc, char *argv[]) {
     if (h_nw == 0) continue;
     op = h_w[0];
     r_reset();
-    alarm(120);
+    alarm(15);
     if (0 == strcmp(op, "ratio")) rc = op_ratio();
     else if (h_nw < 2 || !is_nat_tok(h_w[1]) || strlen(h_w[1]) > 6 || h_i(h_w[1]) != np) rc = BAD;
     else if (!split_groups() || ng != np) rc = BAD;
